@@ -114,7 +114,7 @@ def judge_case(res, version, steps, eng, tmp, flavour, then=None):
             fields = set()
             for k in set(orig) & set(got):
                 for f in orig[k]:
-                    if strict(orig[k][f]) != strict(got[k][f]):
+                    if strict(orig[k].get(f)) != strict(got[k].get(f)):
                         fields.add(f)
             key_types = sorted({type(k).__name__ for k in got} | {type(c).__name__ for n in got.values() for c in n["ch"]}
                                | {type(v).__name__ for n in got.values() for c in n["ch"].values() for v in c["vals"]})
